@@ -52,11 +52,12 @@ def run(tier, seed):
     cases = make_cases(tier, rng)
     obs, crashes = vlib.run_cases(b["drivers"], "TestServeCases", cases, "c16", env={"VERIF_VPLUGIN": b["vplugin"]}, shards=min(8, vlib.NCPU))
     by = {c["name"]: c for c in cases}
+    nhung = len(vlib.hung_cases(obs))
     for name in vlib.hung_cases(obs):
         rep.violation("c16:hang", "case never finished", {"case": by[name]})
         del obs[name]
     obs_list = [obs[c["name"]] for c in cases if c["name"] in obs]
-    if len(obs_list) + len(crashes) < len(cases):
+    if len(obs_list) + len(crashes) + nhung < len(cases):
         raise vlib.Inconclusive("missing observations")
     r2, dev = vlib.judge_observations("TraceServeStartup", "trace_servestartup.cfg", obs_list, "c16")
     for name in dev:
